@@ -232,6 +232,9 @@ func c17Gen(rng *gen.Rng, population string) *c17Hist {
 	}
 	largeUsed := !rng.Chance(5) // one history in twenty may contain one large value (each costs seconds)
 	content := func() string {
+		if extC && rng.Chance(4) {
+			return "" // the empty string is the boundary value of every quoting and argument-passing scheme
+		}
 		if extC && rng.Chance(45) {
 			c := rng.Pick(c17ExtContents)
 			if rng.Chance(20) {
@@ -791,7 +794,17 @@ func (h *c17Hist) render(seed uint64) []*c17Segment {
 					pe2 := operand(id, "q", o2, op.Path2, &pre2)
 					b := strings.TrimSuffix(m.Files[op.Path2], "\n")
 					unspec = unspec || unspecified(m.Files[op.Path2])
-					switch op.Comp {
+					comp := op.Comp
+					if comp == "eq2" {
+						// (== on values of the extended alphabet would test the comparison operator, which is
+						// not C17's subject: such values are concatenated instead)
+						for _, f := range c17CharFeatures {
+							if f.Has(a) || f.Has(b) {
+								comp = "cat2"
+							}
+						}
+					}
+					switch comp {
 					case "cat2":
 						expr, want = fmt.Sprintf("read(%s) + read(%s)", pe, pe2), a+b
 					case "eq2":
@@ -1130,7 +1143,7 @@ func c17RunX(r *Run, h *c17Hist, seed uint64, st *c17Stats, harvest *[]string) (
 func checkC17(r *Run) error {
 	rng := gen.NewRng(r.Seed)
 	st := &c17Stats{states: map[string]bool{}, tuples: map[string]bool{}, byPop: map[string]int{}, featSeen: map[string]int{}}
-	batch := 96
+	batch := 384 // (large enough to hide the few histories that take seconds behind the many that take milliseconds)
 	rounds := 0
 	if _, err := os.Stat("/bin/bash"); err != nil {
 		return machinery("/bin/bash not available")
@@ -1146,6 +1159,8 @@ func checkC17(r *Run) error {
 			hs[i] = c17Gen(rng.Sub(), pop)
 			seeds[i] = rng.U64()
 		}
+		// histories with a large value first: they run while the workers chew through the rest
+		sort.SliceStable(hs, func(a, b int) bool { return hs[a].maxContent() > 4096 && hs[b].maxContent() <= 4096 })
 		kinds := make([]string, batch)
 		details := make([]string, batch)
 		errs := make([]error, batch)
@@ -1263,6 +1278,14 @@ func checkC17(r *Run) error {
 		"print with a non-dash marker prefix reproduces a variable's value faithfully (echo without -e)",
 		"a failing extended-population history is attributed to a known finding only through the counterfactual: it must pass once exactly the listed features are neutralised",
 	}, "exploration")
+}
+
+func (h *c17Hist) maxContent() int {
+	n := 0
+	for _, op := range h.Ops {
+		n = max(n, len(op.Content))
+	}
+	return n
 }
 
 // withContents returns a copy of the history in which the written contents are, in turn, the
